@@ -899,3 +899,25 @@ func (c *Ctx) RangeFuncNoBreak(fn *ssa.Function, label string) int {
 	walk(fn)
 	return n
 }
+
+// Rejects: fn tests the condition `when` and, from every arm on which it
+// holds, no success return of fn (last result, an error, nil) is reachable:
+// an input with that defect is never accepted.
+func (c *Ctx) Rejects(fn *ssa.Function, label string, when ...FM) bool {
+	res := fn.Signature.Results()
+	if res.Len() == 0 || !isErrorType(res.At(res.Len()-1).Type()) {
+		panic(anchorErr{"Rejects on a function without an error result: " + shortName(fn)})
+	}
+	ok := true
+	succ := successReturns(fn, res.Len()-1)
+	if len(succ) == 0 {
+		c.violate(fn.Blocks[0].Instrs[0], fn, label, label+": no success return in "+shortName(fn), nil)
+		return false
+	}
+	for _, r := range succ {
+		if !c.Unreachable(r, label, when...) {
+			ok = false
+		}
+	}
+	return ok
+}
